@@ -921,7 +921,7 @@ inductive Op
   | onPersist (primary : Nat) (notaries : List Nat) (txs : List TxFee)
   | txBegin (sender : Nat) (signers : List Signer)
   | transfer (t : Tok) (src dst : Nat) (amt : Int) (caller : Option Nat) (dk : DataKind) (data : Data)
-  | vote (acc : Nat) (pub : Option Nat) (caller : Option Nat)
+  | vote (acc : Nat) (pub : Option Nat) (caller : Option Nat) (cb : Bool)
   | register (pub : Nat) (caller : Option Nat)
   | unregister (pub : Nat) (caller : Option Nat)
   | lock (acc : Nat) (till : Nat) (caller : Option Nat)
@@ -1064,18 +1064,23 @@ def exec (s : St) (op : Op) : St :=
         let s' := s.done l (resOf b)
         if recvOf s.env dst dk = .cb then { s' with skip := 1 } else s'
       | .posted l d1 d2 => afterPosted s t l src dst amt (recvOf s.env dst dk) data d1 d2
-  | .vote acc pub caller =>
+  | .vote acc pub caller cb =>
+    -- `cb`: the voter is a contract whose payment callback makes further native calls when the GAS reward of the vote
+    -- is paid to it (the nested calls follow, closed by `endCb`).  The account item with the new vote is written by
+    -- `votePre` (native_neo.go:1097) BEFORE the reward is minted and the callback runs (1110-1112).
     if s.failing then s
     else
+      let noCb (s' : St) : St := if cb then { s' with skip := 1 } else s'
       match votePre s.env s.cur acc pub (witOf s.env acc caller s.env.neoC) with
-      | (l, false, _) => s.done l .f
+      | (l, false, _) => noCb (s.done l .f)
       | (l, true, g) =>
         match g with
-        | none => s.done l .t
+        | none => noCb (s.done l .t)
         | some g =>
           match mintGasCb s.env l acc g with
           | none => s.throw
-          | some l' => s.done l' .t
+          -- a reward of 0 is not minted and pays nothing (MintDeferrable / addTokens return at once): no callback
+          | some l' => if cb ∧ g ≠ 0 then { s with cur := l', cbs := ⟨none, none⟩ :: s.cbs } else noCb (s.done l' .t)
   | .register pub _ =>
     if s.failing then s else s.done (registerInternal s.cur pub) .t
   | .unregister pub caller =>
@@ -1140,7 +1145,7 @@ def Op.isCall : Op → Bool
 
 /-- the contract that makes the call (`none`: the entry script, or not a call). -/
 def Op.caller : Op → Option Nat
-  | .transfer _ _ _ _ c _ _ | .vote _ _ c | .register _ c | .unregister _ c | .lock _ _ c | .withdraw _ _ c
+  | .transfer _ _ _ _ c _ _ | .vote _ _ c _ | .register _ c | .unregister _ c | .lock _ _ c | .withdraw _ _ c
   | .setGpb _ c | .setRegPrice _ c | .blockAcc _ c | .unblockAcc _ c | .designate _ c => c
   | _ => none
 
@@ -1157,6 +1162,7 @@ def step (s : St) (op : Op) : St :=
   if s.skip > 0 ∧ op.isCall then
     match op with
     | .transfer _ _ dst _ _ dk _ => if recvOf s.env dst dk = .cb then { s with skip := s.skip + 1 } else s
+    | .vote _ _ _ cb => if cb then { s with skip := s.skip + 1 } else s
     | .endCb => { s with skip := s.skip - 1 }
     | _ => s
   else if callerBlocked s op then s.throw
